@@ -307,6 +307,8 @@ func SameBlockScenarios(g *Gen, b *Builder) {
 		b.V1FormThenProve()
 	case 6: // byte-identical data-only transactions, repeated inside the block and across blocks
 		b.DataOnly()
+	case 9: // several v2 contracts for the same period, later proven together
+		b.AfterV1(func() { b.V2FormBatch() })
 	case 7: // a payout batch: one transaction with 17..300 outputs
 		if !g.W.NoBig && rapid.IntRange(0, 2).Draw(g.T, "fanout") == 0 {
 			if rapid.Bool().Draw(g.T, "fanAfterV1") {
